@@ -218,6 +218,7 @@ def representatives():
     """(name, item, in_model_domain)"""
     return [
         ("uint0", uint(0), True), ("uint1", uint(1), True), ("uint2^32", uint(2 ** 32), True), ("nint-1", nint(0), True), ("nint-big", nint(2 ** 40), True),
+        ("uint2^56", uint(2 ** 56), True), ("uint2^63", uint(2 ** 63), True), ("uint-max", uint(2 ** 64 - 1), True), ("nint-min", nint(2 ** 64 - 1), True),
         ("bstr-empty", bstr(b""), True), ("bstr-ff", bstr(b"\xff\x01"), True), ("bstr-cbor", bstr(b"\x05"), True), ("bstr16", bstr(bytes(range(16))), True),
         ("tstr-empty", tstr(""), True), ("tstr-a", tstr("a"), True), ("tstr-long", tstr("x" * 30), True),
         ("arr0", arr([]), True), ("arr1", arr([uint(1)]), True), ("arr2", arr([uint(1), bstr(b"\x02")]), True), ("arr3", arr([uint(1), uint(2), uint(3)]), True),
